@@ -670,6 +670,9 @@ func (cl *Cluster) replyFor(n *Node, pc *PCmd, kind, cls, to string) []byte {
 		if kind == "nil" {
 			return []byte("$-1\r\n")
 		}
+		if kind == "empty" {
+			return []byte("$0\r\n\r\n") // the key holds the empty string
+		}
 		return val(pc.Args[1])
 	case "set", "mset", "setex", "psetex":
 		return []byte("+OK\r\n")
@@ -681,8 +684,10 @@ func (cl *Cluster) replyFor(n *Node, pc *PCmd, kind, cls, to string) []byte {
 	case "mget":
 		out := []byte(fmt.Sprintf("*%d\r\n", len(pc.Args)-1))
 		for j, k := range pc.Args[1:] {
-			if kind == "nil" || (kind == "mix" && j%2 == 1) {
+			if kind == "nil" || (kind == "mix" && j%2 == 1) || (kind == "mixe" && j%3 == 2) {
 				out = append(out, "$-1\r\n"...)
+			} else if kind == "empty" || (kind == "mixe" && j%3 == 1) {
+				out = append(out, "$0\r\n\r\n"...) // a key that holds the empty string
 			} else {
 				out = append(out, val(k)...)
 			}
@@ -769,6 +774,10 @@ func (cl *Cluster) answerLocked(nc *NodeConn, kind, cls, to string, raw []byte) 
 		for j := range ev.Toks {
 			ev.Toks[j].N = nc.node.Name
 			switch {
+			case r.T == '*' && j < len(r.Arr) && r.Arr[j].T == '$' && len(r.Arr[j].S) == 0:
+				ev.Toks[j].V = "empty"
+			case r.T == '$' && len(r.S) == 0:
+				ev.Toks[j].V = "empty"
 			case r.T == '*' && j < len(r.Arr) && r.Arr[j].T == '$':
 				ev.Toks[j].V = "val"
 			case r.T == '*' && j < len(r.Arr) && r.Arr[j].T == 'N':
